@@ -36,7 +36,9 @@ func sameFloat(a, b float64) bool {
 	return math.Float64bits(a) == math.Float64bits(b)
 }
 
-func sameComplex(a, b complex128) bool { return sameFloat(real(a), real(b)) && sameFloat(imag(a), imag(b)) }
+func sameComplex(a, b complex128) bool {
+	return sameFloat(real(a), real(b)) && sameFloat(imag(a), imag(b))
+}
 
 // expect is Go's own answer for literal s at type code t: value (as complex128,
 // imaginary part 0 for floats) or error.
